@@ -26,7 +26,7 @@ Definition enc_answer (a : option (list (list val))) : list Z :=
   match a with Some rs => 0 :: enc_result rs | None => [2] end.
 
 (* ---- the paging client ---- *)
-Definition cursor_name (j : nat) : str := 99%N :: dec_N (N.of_nat j).          (* c0, c1, ... *)
+Definition cursor_name (j : nat) : str := 99%N :: repeat 48%N j.          (* c, c0, c00, ... *)
 Fixpoint find_pos {A} (p : A -> bool) (l : list A) (i : nat) : option nat :=
   match l with [] => None | x :: t => if p x then Some i else find_pos p t (S i) end.
 Definition key_pos (q : query) (k : okey) : option nat :=
@@ -124,19 +124,10 @@ Definition skip_vo (l : list Z) : option (list Z) :=
   end.
 
 (* ---- the property's own oracle ---- *)
-(* equality of JSON values: numbers by value (2 and 2.0 are the same JSON number), the rest exactly *)
-Definition val_eqv (a b : val) : bool :=
-  match a, b with
-  | VNull, VNull => true
-  | VBool x, VBool y => Bool.eqb x y
-  | VStr s, VStr t => str_eqb s t
-  | (VInt _ | VFlt _), (VInt _ | VFlt _) => opt_eqb Z.eqb (num4 a) (num4 b)
-  | _, _ => false
-  end.
-Definition result_eqv (a b : list (list val)) : bool := list_eqb (list_eqb val_eqv) a b.
+Definition result_eqb (a b : list (list val)) : bool := list_eqb (list_eqb val_eqb) a b.
 Definition answer_ok (expected observed : option (list (list val))) : bool :=
   match expected, observed with
-  | Some e, Some o => result_eqv e o
+  | Some e, Some o => result_eqb e o
   | None, None => true
   | _, _ => false
   end.
@@ -258,7 +249,7 @@ Definition known_C05 (c : c05case) : list Z :=
   | CPages m rows q ps n fuel =>
       cls (k_paging (List.length (q_order q)) m rows q ps || k_ties m rows q ps) 1 ++
       cls (k_rawkey m rows q) 2 ++ cls (k_booldefault m rows q) 3 ++
-      cls (k_collision m (with_page q n (Some (map (fun _ => VNull) (q_order q))))) 5 ++
+      cls (k_collision m (with_page q n None) || k_collision m (with_page q n (Some (map (fun _ => VNull) (q_order q))))) 5 ++
       cls (k_nullvar q ps) 6 ++ cls (k_spliced m q) 8
   end.
 
@@ -284,11 +275,22 @@ Definition params_ok (q : query) (ps : params) : bool :=
      end
   && forallb (fun o => match operand_value ps o with Some VNull => false | _ => true end) (paging_values (q_paging q)).
 
+(* the paging client is used as intended: an ordered query without paging / first / skip of its own, every
+   order key among the selected fields, and no variable of the query named like a cursor variable *)
+Definition is_cursor_name (n : str) : bool :=
+  match n with c :: t => N.eqb c 99 && forallb (N.eqb 48) t | [] => false end.
+Definition wf_pages (m : emodel) (q : query) (ps : params) : bool :=
+  wf_query m q && params_ok q ps
+  && match q_paging q, q_first q, q_skip q with PNone, OLit (VInt 0), None => true | _, _, _ => false end
+  && negb (Nat.eqb (List.length (q_order q)) 0)
+  && forallb (fun k => match key_pos q k with Some _ => true | None => false end) (q_order q)
+  && forallb (fun n => negb (is_cursor_name n)) (query_vars q).
+
 (* diagnostic: are the hypotheses of the theorems met by a case? (evaluated by the harness statistics) *)
 Definition wf_C05 (c : c05case) : list Z :=
   match c with
   | CQuery m rows q ps => [zb (wf_query m q); zb (params_ok q ps)]
-  | CPages m rows q ps n fuel => [zb (wf_query m q); zb (params_ok q ps)]
+  | CPages m rows q ps n fuel => [zb (wf_pages m q ps); zb (Z.ltb 0 n && Nat.ltb (List.length rows) fuel)]
   end.
 
 Definition eval_C05 (c : c05case) (obs : list Z) : list Z :=
